@@ -383,4 +383,13 @@ func init() {
 	ext("C01", norm, HarnessSpec{Name: "VerifH_serveHTTP_path", Covers: []string{"dispatched", "not-dispatched", "trailing-slash-stripped", "implicit"}})
 	ext("C02", norm, HarnessSpec{Name: "VerifH_serveHTTP_path", Covers: []string{"dispatched", "not-dispatched"}})
 	ext("C09", norm, HarnessSpec{Name: "VerifH_serveHTTP_path", Covers: []string{"dispatched", "not-dispatched"}})
+
+	ext("C19", "health.AddHealthz end to end: AddHealthz (real) merged into an empty service config or one holding a user rule, NewMux(ServiceConfigOption) + registerService of a fake grpc.health.v1.Health descriptor whose Check handler is the REAL grpc health.Server (bridged message types), one SetServingStatus(name of 0..2 bytes, any of the 4 statuses) or none, GET /v1/healthz?service=<0..2 bytes> and the user's own path, WEBSOCKET /v1/healthz routed to Watch",
+		HarnessSpec{Name: "VerifH_healthz", Covers: []string{"status-set", "status-unknown", "unknown-service", "user-rule-kept", "default-service"}})
+	props["C19"].Assume = append(props["C19"].Assume, "proto.Merge(dst, src) on *serviceconfig.Service modelled: unset dst.Http takes src.Http, otherwise src's rules are appended (replays run the real Merge)", "the health server's generated request / response messages are bridged to fake messages field by field (service, status)")
+	for i, o := range props["C19"].Outside {
+		if strings.HasPrefix(o, "health.AddHealthz end-to-end") {
+			props["C19"].Outside[i] = "health Watch stream contents over WebSocket (the binding's routing is checked, the watch loop blocks on channels); SetServingStatus histories longer than one call"
+		}
+	}
 }
